@@ -171,11 +171,36 @@ _tod = st.one_of(
     st.just([0, 0]),
     st.tuples(st.sampled_from([1, 3600, 36000, 43200, 86399]), st.sampled_from([0, 0, 1, 500000, 999999])).map(list),
     st.tuples(st.integers(0, 86399), st.just(0)).map(list),
+    # boundary values: one microsecond past midnight with everything else 0, the last microsecond of the day
+    st.sampled_from([[0, 1], [0, 999999], [86399, 999999], [1, 0]]),
 )
 _tod_intraday = st.one_of(
     st.tuples(st.sampled_from([1, 3600, 36000, 43200, 86399]), st.sampled_from([0, 0, 1, 500000, 999999])).map(list),
     st.tuples(st.integers(1, 86399), st.just(0)).map(list),
 )
+
+
+@st.composite
+def _sibling(draw, tod):
+    """another time of day on the SAME date: half of them differ from `tod` in the microsecond only (a result remembered per
+    date / per second would be wrong for the sibling)"""
+    if draw(st.booleans()):
+        sib = [tod[0], draw(st.sampled_from([0, 1, 500000, 999999]))]
+    else:
+        sib = list(draw(_tod))
+    if sib == list(tod):
+        sib = [tod[0], (tod[1] + 1) % 1000000]
+    return sib
+
+
+def _sib_class(spec):
+    return 'sibling_same_second' if spec['sib'][0] == spec['t'][1] else 'sibling_other_time'
+
+
+def _tod_class(tspec):
+    if tspec[1] == 0 and tspec[2]:
+        return ['microseconds_only']
+    return []
 
 
 def _ymd_ordinal(ymd):
@@ -200,12 +225,11 @@ def _bday_case(draw):
     name = None
     if 0 <= n <= 3 and draw(st.integers(0, 2)) == 0:
         name = draw(st.sampled_from(sorted(k for k, v in NAMED.items() if v == n)))
-        if draw(st.booleans()):
-            name = name.upper()
+        name = draw(st.sampled_from([name, name.upper(), name.title()]))
     bmag = draw(st.integers(0, NMAX - abs(n)))
     neg = n < 0 or (n == 0 and draw(st.booleans()))
     return dict(t=[o, tod[0], tod[1]], n=n, form=draw(_form), name=name, k=draw(st.integers(0, 9)), b=-bmag if neg else bmag,
-                api=draw(st.sampled_from(['dt_bump', 'dt_bump', 'dt'])))
+                api=draw(st.sampled_from(['dt_bump', 'dt_bump', 'dt'])), sib=draw(_sibling(tod)))
 
 
 def run_bday(spec):
@@ -226,7 +250,13 @@ def run_bday(spec):
     _expect(api, t2, [s], r2, o_bday(t2, n), 'business-day walk')
     if not r <= r2:
         raise Violation('not monotone in t: %r <= %r but bumped by %r they give %r > %r' % (t, t2, s, r, r2))
-    cls = ['n>0' if n > 0 else 'n<0' if n < 0 else 'n=0', 'api=' + api]
+    cls = ['n>0' if n > 0 else 'n<0' if n < 0 else 'n=0', 'api=' + api] + _tod_class(spec['t'])
+    if spec.get('sib') is not None:
+        # same date, other time of day, same bump - asked right after the first one
+        ts = mk([spec['t'][0]] + spec['sib'])
+        rs = _bump(api, ts, s)
+        _expect(api, ts, [s], rs, o_bday(ts, n), 'business-day walk; asked right after the same bump from %r' % t)
+        cls.append(_sib_class(spec))
     weekend = t.weekday() >= 5
     if weekend:
         cls.append('start_weekend')
@@ -256,6 +286,8 @@ def run_bday(spec):
         cls.append('crosses_weekend')
     if spec['name']:
         cls.append('named_tenor')
+        if spec['name'] not in (spec['name'].lower(), spec['name'].upper()):
+            cls.append('named_tenor_mixed_case')
     if spec['t'][1] or spec['t'][2]:
         cls.append('intraday')
     if abs(n) >= 5:
@@ -387,25 +419,34 @@ _compose_quick = st.tuples(st.integers(0, NDAYS // 7 - 1), st.integers(0, 4), st
 def _fixed_case(draw):
     o = draw(_ordinal)
     tod = draw(_tod)
-    kind = draw(st.sampled_from(['d', 'w', 'h', 'n', 's', 'int', 'td']))
+    kind = draw(st.sampled_from(['d', 'w', 'h', 'n', 's', 'int', 'td', 'npint']))
     if kind == 'int':
         bump = ['int', draw(_n)]
+    elif kind == 'npint':
+        bump = ['npint', draw(_n), draw(st.sampled_from(['int64', 'int64', 'int32', 'int16']))]
     elif kind == 'td':
         bump = ['td', draw(st.integers(-NMAX, NMAX)), draw(st.one_of(st.just(0), st.integers(-86399, 86399))), draw(st.sampled_from([0, 0, 1, -1, 500000]))]
     else:
         bump = ['p', draw(_n), kind, draw(_form)]
-    return dict(t=[o, tod[0], tod[1]], bump=bump, api=draw(st.sampled_from(['dt_bump', 'dt'])))
+    return dict(t=[o, tod[0], tod[1]], bump=bump, api=draw(st.sampled_from(['dt_bump', 'dt'])), sib=draw(_sibling(tod)))
 
 
 def _build_fixed(bump):
     """-> (bump object, inverse bump object, expected timedelta, n-ish)"""
     if bump[0] == 'int':
         return bump[1], -bump[1], bump[1] * DAY
+    if bump[0] == 'npint':
+        import numpy as np
+        return getattr(np, bump[2])(bump[1]), getattr(np, bump[2])(-bump[1]), bump[1] * DAY
     if bump[0] == 'td':
         td = datetime.timedelta(days=bump[1], seconds=bump[2], microseconds=bump[3])
         return td, -td, td
     _, n, unit, form = bump
     return fmt(n, unit, form), fmt(-n, unit, form & 2), n * FIXED[unit]
+
+
+def zero_bump(bump):
+    return (bump[0] in ('int', 'npint', 'p') and bump[1] == 0) or (bump[0] == 'td' and not (bump[1] or bump[2] or bump[3]))
 
 
 def run_fixed(spec):
@@ -419,7 +460,19 @@ def run_fixed(spec):
     if not (_is_dt(back) and back == t):
         raise Violation('%s: %r bumped by %r then by %r returns to %r' % (api, t, b, inv, back))
     kind = spec['bump'][0] if spec['bump'][0] != 'p' else 'unit=' + spec['bump'][2]
-    cls = [kind, 'api=' + api]
+    cls = [kind, 'api=' + api] + _tod_class(spec['t'])
+    if spec.get('sib') is not None:
+        ts = mk([spec['t'][0]] + spec['sib'])
+        rs = _bump(api, ts, b)
+        _expect(api, ts, [b], rs, ts + delta, 'adds exactly %r; asked right after the same bump from %r' % (delta, t))
+        cls.append(_sib_class(spec))
+    if spec['bump'][0] == 'p':
+        if spec['bump'][3] & 2:
+            cls.append('upper_case')
+        if spec['bump'][3] & 1 and spec['bump'][1] >= 0:
+            cls.append('plus_sign')
+    if zero_bump(spec['bump']):
+        cls.append('zero_bump')
     zero = delta == datetime.timedelta(0)
     if delta < datetime.timedelta(0):
         cls.append('negative')
@@ -597,6 +650,20 @@ def _fold(t, parts):
     return t, seen
 
 
+def _valid(tod, parts):
+    """is every m/q/y part applied at midnight? (only h/n/s parts move the time of day)"""
+    off = datetime.timedelta(seconds=tod[0], microseconds=tod[1])
+    for n, unit, _ in parts:
+        if unit in MONTHS and (off.seconds or off.microseconds):
+            return False
+        if unit in 'hns':
+            off = off + n * FIXED[unit]
+    return True
+
+
+HOWS = ['compound', 'compound', 'compound', 'dt', 'multi', 'dt_multi', 'mixed', 'dt_mixed', 'list', 'dt_list']
+
+
 @st.composite
 def _compound_case(draw):
     k = draw(st.sampled_from([2, 2, 3, 3, 3]))
@@ -613,28 +680,88 @@ def _compound_case(draw):
             n = draw(_n)
         parts.append([n, u, draw(_form)])
     tod = [0, 0] if last_month >= 0 else draw(_tod)
-    return dict(t=[draw(_ordinal), tod[0], tod[1]], parts=parts, api=draw(st.sampled_from(['compound', 'compound', 'dt', 'multi', 'dt_multi'])))
+    # duplicates: one part repeated verbatim (adjacent, or first == last of three) where the result stays inside the claimed domain
+    if draw(st.sampled_from([True] + [False] * 6)):
+        i, j = draw(st.sampled_from([(0, 1), (0, k - 1), (k - 2, k - 1)]))
+        cand = [list(q) for q in parts]
+        cand[j] = list(cand[i])
+        if _valid(tod, cand):
+            parts = cand
+    # a zero part in the middle / at an end of the tenor
+    if draw(st.sampled_from([True] + [False] * 11)):
+        j = draw(st.integers(0, k - 1))
+        parts[j][0] = 0
+    how = draw(st.sampled_from(HOWS))
+    kinds = [draw(st.integers(0, 3)) for _ in range(k)]
+    if how in ('mixed', 'dt_mixed'):
+        # at least one bump that can be passed as an int / numpy int / timedelta (a day part never leaves midnight)
+        j = draw(st.integers(0, k - 1))
+        if parts[j][1] not in FIXED:
+            cand = parts[:j] + [[parts[j][0], 'd', parts[j][2]]] + parts[j + 1:]
+            if _valid(tod, cand):
+                parts = cand
+        kinds[j] = draw(st.integers(1, 3))
+    sib = None
+    if not any(p[1] in MONTHS for p in parts):
+        sib = draw(_sibling(tod))
+    return dict(t=[draw(_ordinal), tod[0], tod[1]], parts=parts, api=how, kinds=kinds, sib=sib)
+
+
+def _as_object(part, kind):
+    """the same bump as string / python int / numpy int / timedelta where the unit allows it"""
+    n, unit, form = part
+    if unit == 'd' and kind == 1:
+        return n
+    if unit == 'd' and kind == 2:
+        import numpy as np
+        return np.int64(n)
+    if unit in FIXED and kind == 3:
+        return n * FIXED[unit]
+    return fmt(n, unit, form)
+
+
+def _order_matters(t, tod, parts, exp):
+    import itertools
+    for perm in itertools.permutations(parts):
+        if _valid(tod, perm) and _fold(t, perm)[0] != exp:
+            return True
+    return False
 
 
 def run_compound(spec):
     t = mk(spec['t'])
     parts = spec['parts']
+    tod = spec['t'][1:]
+    if not _valid(tod, parts):
+        raise HarnessError('month-based part applied off midnight: outside the claimed domain')
     exp, seen = _fold(t, parts)
     s = fmt_parts(parts)
     how = spec['api']
-    if how == 'compound':
-        api, bumps = 'dt_bump', [s]
-    elif how == 'dt':
-        api, bumps = 'dt', [s]
-    elif how == 'multi':
-        api, bumps = 'dt_bump', [fmt(*p) for p in parts]
+    api = 'dt' if how.startswith('dt') else 'dt_bump'
+    given = None
+    if how in ('compound', 'dt'):
+        bumps = [s]
+    elif how in ('multi', 'dt_multi'):
+        bumps = [fmt(*q) for q in parts]
+    elif how in ('mixed', 'dt_mixed'):
+        bumps = [_as_object(q, kd) for q, kd in zip(parts, spec['kinds'])]
     else:
-        api, bumps = 'dt', [fmt(*p) for p in parts]
+        given = [fmt(*q) for q in parts]
+        bumps = [given]                     # ONE argument that is a list of bumps
+    snapshot = list(given) if given is not None else None
+    why = 'parts applied left to right: %s' % ' then '.join('%+i%s' % (q[0], q[1]) for q in parts)
     r = _bump(api, t, *bumps)
-    _expect(api, t, bumps, r, exp, 'parts applied left to right: %s' % ' then '.join('%+i%s' % (p[0], p[1]) for p in parts))
-    signs = set(1 if p[0] > 0 else -1 for p in parts if p[0])
-    units = set(p[1] for p in parts)
-    cls = ['k=%i' % len(parts), 'how=' + how] + sorted(seen)
+    _expect(api, t, bumps if given is None else [snapshot], r, exp, why)
+    if given is not None and given != snapshot:
+        raise Violation('%s(%r, %r) changed the list of bumps it was given to %r' % (api, t, snapshot, given))
+    signs = set(1 if q[0] > 0 else -1 for q in parts if q[0])
+    units = set(q[1] for q in parts)
+    cls = ['k=%i' % len(parts), 'how=' + how] + sorted(seen) + _tod_class(spec['t'])
+    if spec.get('sib') is not None:
+        ts = mk([spec['t'][0]] + spec['sib'])
+        rs = _bump(api, ts, *bumps)
+        _expect(api, ts, bumps if given is None else [snapshot], rs, _fold(ts, parts)[0], why + '; asked right after the same bump from %r' % t)
+        cls.append(_sib_class(spec))
     if len(signs) == 2:
         cls.append('mixed_sign')
     if units & set(MONTHS):
@@ -645,8 +772,25 @@ def run_compound(spec):
         cls.append('has_intraday_unit')
     if len(units) == len(parts):
         cls.append('all_units_differ')
-    if any(p[0] < 0 for p in parts[1:]):
+    if any(q[0] < 0 for q in parts[1:]):
         cls.append('later_part_negative')
+    if any(q[0] == 0 for q in parts):
+        cls.append('zero_part')
+    spelled = [fmt(*q) for q in parts]
+    if len(set(spelled)) < len(spelled):
+        cls.append('duplicate_part')
+        if len(parts) == 3 and spelled[0] == spelled[2] != spelled[1]:
+            cls.append('duplicate_first_last')
+    if _order_matters(t, tod, parts, exp):
+        cls.append('order_matters')
+    if how in ('mixed', 'dt_mixed') and len(set(type(b).__name__ for b in bumps)) >= 2:
+        cls.append('bump_types_mixed')
+        if not isinstance(bumps[-1], str) or not isinstance(bumps[0], str):
+            cls.append('non_string_bump_at_an_end')
+        if not isinstance(bumps[0], str):
+            cls.append('non_string_bump_first')
+    if any(q[2] & 2 for q in parts) and any(not q[2] & 2 for q in parts):
+        cls.append('mixed_case_units')
     return dict(nt=len(signs) == 2, cls=cls)
 
 
@@ -737,7 +881,8 @@ SUBS = [
              'through dt_bump and dt; oracle: day-by-day walk skipping Sat/Sun after rolling a weekend start to Monday (cross-checked with a weekday table); '
              'lands on weekday, monotone against t + 0..9 days, from a weekday: a then b == a+b (two calls, two bumps, compound string), +n then -n returns. '
              'non-trivial = starts on a weekend or crosses one',
-        floor=0.4, class_floors={'start_weekend': 0.15, 'n<0': 0.25, 'intraday': 0.3, 'composed': 0.3, 'named_tenor': 0.01}),
+        floor=0.4, class_floors={'start_weekend': 0.15, 'n<0': 0.25, 'intraday': 0.3, 'composed': 0.3, 'named_tenor': 0.01, 'named_tenor_mixed_case': 0.003,
+                                 'sibling_same_second': 0.3, 'sibling_other_time': 0.1, 'microseconds_only': 0.03, 'n=0': 0.01}),
     EnumSub('bday_all_days', enum_bday_days, run_bday_day, strategy=lambda tier: _bday_day_quick, quick=1000, chunks=64,
             rule="every one of the 146097 days 1900-01-01..2299-12-31 at midnight x every n in [-60,60] (one evaluation = one start day = 121 bumps): "
                  "dt_bump(t,'nb') == n-th entry after t in the table of all weekdays; monotone against the following day; from a weekday +n then -n returns to t"),
@@ -748,7 +893,8 @@ SUBS = [
         rule="start anywhere in 1900-2299 with seconds/microseconds; bump = 'nd','nw','nh','nn','ns' (n in [-60,60], optional '+', either case), int n, or timedelta "
              '(days, seconds, microseconds); through dt_bump and dt; oracle t + timedelta; +x then -x returns to t. '
              'non-trivial = non-zero bump from an intraday start or into another month',
-        floor=0.3, class_floors={'int': 0.05, 'td': 0.05, 'negative': 0.25, 'intraday_unit_crosses_midnight': 0.02}),
+        floor=0.3, class_floors={'int': 0.04, 'npint': 0.04, 'td': 0.05, 'negative': 0.25, 'intraday_unit_crosses_midnight': 0.02, 'zero_bump': 0.02,
+                                 'sibling_same_second': 0.3, 'sibling_other_time': 0.1, 'microseconds_only': 0.03}),
     Sub('month_units', lambda tier: _month_case(), run_month, quick=4000, thorough=10000,
         rule="midnight start anywhere in 1900-2299 (month ends, leap days over-weighted); 'nm','nq','ny', n in [-60,60]; oracle: month arithmetic by integer division, "
              'day kept if it exists else excess rolls into the following month (cross-checked with first-of-month + (day-1) days); inverse when day <= 28. '
@@ -763,7 +909,9 @@ SUBS = [
     Sub('compound', lambda tier: _compound_case(), run_compound, quick=6000, thorough=30000,
         rule='two- and three-part tenors over all nine unit letters, n in [-60,60] each, optional + / upper case per part, as one string or as separate bumps, '
              'through dt_bump and dt; oracle: left fold of the single-part oracles. non-trivial = parts of both signs',
-        floor=0.25, class_floors={'has_month': 0.3, 'has_b': 0.15, 'k=3': 0.3, 'month_overflow': 0.01, 'b_from_weekend': 0.03, 'later_part_negative': 0.3}),
+        floor=0.2, class_floors={'has_month': 0.3, 'has_b': 0.15, 'k=3': 0.3, 'month_overflow': 0.006, 'b_from_weekend': 0.03, 'later_part_negative': 0.3,
+                                 'duplicate_part': 0.06, 'duplicate_first_last': 0.01, 'zero_part': 0.04, 'order_matters': 0.08, 'bump_types_mixed': 0.06,
+                                 'non_string_bump_first': 0.02, 'how=list': 0.03, 'how=dt_list': 0.03, 'sibling_same_second': 0.1, 'sibling_other_time': 0.03}),
     EnumSub('compound_grid', enum_compound_grid, run_compound_grid, strategy=lambda tier: _compound_grid_quick(), quick=60, chunks=32,
             rule='ALL two-part tenors (81 ordered unit pairs x 121^2 values of n) from 4 starts each, and all 729 ordered unit triples x 9^3 values of n from 8 starts each '
                  '(one evaluation = one unit sequence and start with all its n combinations; an h/n/s part in front of a month-based part is restricted to whole days: '
